@@ -66,7 +66,8 @@ def _job(args):
                 out['refused_numpy_int'] = out.get('refused_numpy_int', 0) + 1
                 continue
             if got != exp:
-                out['bad'].append({'call': 'iterindices', 'n': n, 'args': {k: repr(v) for k, v in kw.items()}, 'expected': exp, 'got': got})
+                out['bad'].append({'call': 'iterindices', 'n': n, 'args': {k: (v.item() if isinstance(v, np.generic) else v) for k, v in kw.items()},
+                                   'forms': {k: type(v).__name__ for k, v in kw.items()}, 'expected': exp, 'got': got})
                 continue
             # iterchunks: detached copies of a[frame] for the same frames
             try:
@@ -176,7 +177,8 @@ def run(tier, seed):
         run.add('valueerror_rows', res['valueerrors'])
         for b in res['bad']:
             a = b.get('args', {})
-            cls = 'negstart' if (a.get('startindex') or 0) < 0 else (
+            st = a.get('startindex')
+            cls = 'negstart' if (st if isinstance(st, (int, float)) else 0) < 0 else (
                 'remainder' if a.get('include_remainder') else 'noremainder')
             sig = 'C14|%s|%s|%s' % (b['call'], cls, 'expectValueError' if b['expected'] == 'ValueError' else 'frames')
             run.violation(sig, b, {'kind': 'frames', 'case': b})
